@@ -48,13 +48,6 @@ DateTimeRangeCases ==
 Cases == DurCases \cup DateRangeCases \cup TimeRangeCases \cup DateTimeRangeCases
 
 (* ------------------------------------------------------------------ (3) TripleConsistent *)
-RECURSIVE SplitAt(_, _, _, _)
-(* split s on character c: returns sequence of pieces *)
-SplitAt(s, c, i, start) ==
-  IF i > Len(s) THEN <<SubSeq(s, start, Len(s))>>
-  ELSE IF Ch(s, i) = c THEN <<SubSeq(s, start, i - 1)>> \o SplitAt(s, c, i + 1, i + 1)
-  ELSE SplitAt(s, c, i + 1, start)
-Split(s, c) == SplitAt(s, c, 1, 1)
 IsTriple(x) == Len(x) >= 7 /\ Ch(x, 1) = "(" /\ Ch(x, Len(x)) = ")" /\ Len(Split(SubSeq(x, 2, Len(x) - 1), ",")) = 3
 TripleParts(x) == Split(SubSeq(x, 2, Len(x) - 1), ",")
 
